@@ -50,6 +50,7 @@ type machine struct {
 
 	maxN, maxECDSA int
 	steps, limit   int
+	runNo          int // ordinal of the protocol run inside the history (part of every random stream label)
 
 	epochChanges, signs, mixChecks, mixSigns int
 	desc                                     []string // descriptor entries (abstracted)
@@ -236,7 +237,13 @@ func (m *machine) runEpochChangeWith(t *rapid.T, what string, prevMask uint64, n
 		}
 	}
 	all = proto.SortedIDs(all)
-	ctxs, err := proto.Contexts(all, seed, "redistribute")
+	// every protocol run of a history has its own random tapes: the drawn seed AND the ordinal of
+	// the run go into the stream labels (rapid likes to draw the same small seed twice; two runs on
+	// the same tapes with the same drivers would deal the same "fresh" sharing again, which is the
+	// harness repeating randomness, not the library failing to refresh)
+	m.runNo++
+	label := fmt.Sprintf("redistribute#%d", m.runNo)
+	ctxs, err := proto.Contexts(all, seed, label)
 	if err != nil {
 		t.Fatalf("%s: contexts: %v", what, err)
 	}
@@ -249,7 +256,7 @@ func (m *machine) runEpochChangeWith(t *rapid.T, what string, prevMask uint64, n
 		if sh, ok := stale[id]; ok {
 			prevShard = sh
 		}
-		r, err := m.g.RedistributeRunner(ctxs[id], prev, prevShard, ac, proto.PartyPRNG(seed, "redistribute", id), anchors[id])
+		r, err := m.g.RedistributeRunner(ctxs[id], prev, prevShard, ac, proto.PartyPRNG(seed, label, id), anchors[id])
 		if err != nil {
 			// (a stale shard has the same span programme as the current one, so the constructor's
 			// precondition "prev is qualified under the shard's MSP" holds for it as well)
@@ -817,7 +824,8 @@ func (m *machine) doSign(t *rapid.T) {
 	step := fmt.Sprintf("sign(%s epoch=%d quorum=%v msg=%s/%d)", sg.name(), m.cur.no, quorum, mcls, len(msg))
 	what := m.what(step)
 	start := time.Now()
-	out, panicked := trySign(sg, quorum, m.cur.shards, m.cur.shards[quorum[0]], m.pk, msg, seed, 60*time.Second, false)
+	m.runNo++
+	out, panicked := trySign(sg, quorum, m.cur.shards, m.cur.shards[quorum[0]], m.pk, msg, seed, m.runNo, 60*time.Second, false)
 	lap(fmt.Sprintf("sign %s q=%d", sg.kind(), len(quorum)), start)
 	if panicked != "" {
 		t.Fatalf("%s: %s", what, panicked)
@@ -864,7 +872,8 @@ func (m *machine) mix(t *rapid.T) {
 	step := fmt.Sprintf("mix-sign(%s quorum=%v: %v from epoch %d, rest from epoch %d, msg=%s/%d)", sg.name(), quorum, policy.IDList(m.cur.ids, pr[1]), old.no, m.cur.no, mcls, len(msg))
 	what := m.what(step)
 	start := time.Now()
-	out, panicked := trySign(sg, quorum, shards, ref, m.pk, msg, seed, 4*time.Second, true)
+	m.runNo++
+	out, panicked := trySign(sg, quorum, shards, ref, m.pk, msg, seed, m.runNo, 4*time.Second, true)
 	lap(fmt.Sprintf("mix-sign %s q=%d", sg.kind(), len(quorum)), start)
 	if panicked != "" {
 		t.Fatalf("%s: %s", what, panicked)
